@@ -34,10 +34,11 @@ type c19Params struct {
 	Stops   int
 	Request bool
 	Hang    bool // the backends accept probes and never answer them
+	Cleanup bool // the WebSocket pool's cleanup ticker fires as well
 }
 
 func c19Scenario(p c19Params, bound int) vh.SScenario {
-	return vh.SScenario{Name: fmt.Sprintf("shutdown-ticks%d-stops%d-req%v-hang%v", p.Ticks, p.Stops, p.Request, p.Hang), KeyPrefix: "C19", Bound: bound, Params: p,
+	return vh.SScenario{Name: fmt.Sprintf("shutdown-ticks%d-stops%d-req%v-hang%v-cleanup%v", p.Ticks, p.Stops, p.Request, p.Hang, p.Cleanup), KeyPrefix: "C19", Bound: bound, Params: p,
 		ShardSubtrees: true, Horizon: 2000,
 		Body: func(x *vh.Exec) {
 			s := x.S
@@ -78,6 +79,14 @@ func c19Scenario(p c19Params, bound int) vh.SScenario {
 			}
 			if p.Request {
 				ths = append(ths, s.Spawn("client", func() { reqStatus = k.request("10.0.0.1", nil).Status }))
+			}
+			if p.Cleanup {
+				// the pool's own cleanup loop (a goroutine of Helios, started with the pool) gets a tick
+				ths = append(ths, s.Spawn("pool-ticker", func() {
+					if tk := s.TickerByPeriod(30 * time.Second); tk != nil {
+						tk.Fire()
+					}
+				}))
 			}
 			s.Join(ths...)
 			s.Settle() // let whatever is still runnable (loop, probes) run to quiescence
@@ -132,9 +141,9 @@ func TestVerifC19(t *testing.T) {
 		p c19Params
 		b int
 	}
-	scs := []sc{{c19Params{1, 1, false, false}, 2}, {c19Params{2, 1, false, false}, 2}, {c19Params{1, 2, false, false}, 2}, {c19Params{1, 1, true, false}, 2}, {c19Params{0, 2, true, false}, 1}, {c19Params{1, 1, false, true}, 2}, {c19Params{1, 2, false, true}, 1}}
+	scs := []sc{{c19Params{1, 1, false, false, false}, 2}, {c19Params{2, 1, false, false, false}, 2}, {c19Params{1, 2, false, false, false}, 2}, {c19Params{1, 1, true, false, false}, 2}, {c19Params{0, 2, true, false, false}, 1}, {c19Params{1, 1, false, true, false}, 2}, {c19Params{1, 2, false, true, false}, 1}, {c19Params{0, 1, false, false, true}, 2}, {c19Params{1, 2, false, false, true}, 1}}
 	if vres.Thorough() {
-		scs = []sc{{c19Params{1, 1, false, false}, 3}, {c19Params{2, 1, false, false}, 2}, {c19Params{1, 2, false, false}, 2}, {c19Params{1, 1, true, false}, 2}, {c19Params{0, 2, true, false}, 2}, {c19Params{2, 2, true, false}, 1}, {c19Params{1, 1, false, true}, 3}, {c19Params{2, 2, false, true}, 2}}
+		scs = []sc{{c19Params{1, 1, false, false, false}, 3}, {c19Params{2, 1, false, false, false}, 2}, {c19Params{1, 2, false, false, false}, 2}, {c19Params{1, 1, true, false, false}, 2}, {c19Params{0, 2, true, false, false}, 2}, {c19Params{2, 2, true, false, false}, 1}, {c19Params{1, 1, false, true, false}, 3}, {c19Params{2, 2, false, true, false}, 2}, {c19Params{0, 1, false, false, true}, 3}, {c19Params{1, 2, true, false, true}, 2}}
 	}
 	for _, c := range scs {
 		vh.RunS(r, "TestVerifC19", c19Scenario(c.p, c.b))
